@@ -6,6 +6,8 @@ CONSTANTS
     MaxTotal = 12
     MaxResp = 3
     MaxPolls = 3
+    MaxRetries = 10
+    MaxRefusals = 0
     TrackHist = TRUE
 INVARIANTS EmitSim
 CHECK_DEADLOCK FALSE
